@@ -15,30 +15,92 @@ EXPLANATION = (
     "with max(slowest_time.picos, 1000). R04.4 defaults: min_time() -> zero, max_time() -> FineDuration::MAX.")
 NOT_DECIDED = ["agreement of the executed round count with a given clock history (needs a scripted clock - runtime family)"]
 
-EXPECTED_ROWS = {
-    (("Ge", "elapsed", "max_time", True),): False,
-    (("Ge", "elapsed", "max_time", False), ("Gt", "unwrap_or(rem_samples,1)", "const:0", True)): True,
-    (("Ge", "elapsed", "max_time", False), ("Gt", "unwrap_or(rem_samples,1)", "const:0", False)): ("Lt", "elapsed", "min_time"),
-}
+# canonical atoms of the documented condition: continue  <=>  A and (B or C)
+ATOM_A = ("Lt", "elapsed", "max_time")                    # budget not yet used up   (elapsed >= max_time  ==  not A)
+ATOM_B = ("Eq", "const:0", "unwrap_or(rem_samples,1)")    # NO samples remaining     (rem.unwrap_or(1) > 0 ==  not B; counts are unsigned)
+ATOM_C = ("Lt", "elapsed", "min_time")                    # time floor not reached
+
+
+def canon_atom(op, a, c):
+    """(op, a, c) -> (canonical atom, polarity): Gt/Ge/Le/Ne are rewritten to Lt/Eq with a polarity, operands of Eq are
+    sorted, and `0 < x` on an unsigned count is `not (0 == x)` - so the table below is independent of how the source
+    spells a comparison."""
+    pol = True
+    if op == "Gt":
+        op, a, c = "Lt", c, a
+    elif op == "Ge":
+        op, pol = "Lt", False
+    elif op == "Le":
+        op, a, c, pol = "Lt", c, a, False
+    elif op == "Ne":
+        op, pol = "Eq", False
+    if op == "Lt" and a == "const:0":          # 0 < x  <=>  x != 0   (unsigned)
+        op, pol = "Eq", not pol
+    if op == "Lt" and c == "const:1":          # x < 1  <=>  x == 0   (unsigned)
+        op, a, c = "Eq", "const:0", a
+    if op == "Eq" and repr(c) < repr(a):
+        a, c = c, a
+    return (op, a, c), pol
+
+
+def documented(A, B, C):
+    return A and ((not B) or C)
 
 
 def r04_1(ctx, S):
+    import itertools
     b = S.body
     rows = S.cond_rows()
-    got = {}
+    crow = []
+    atoms = set()
     for d, res in rows:
         if d is None:
             ctx.fail("R04.1", [b.path, "condition-shape", res], "the loop condition region is not a pure decision DAG (%s)" % res, b.where(S.loop["header"]))
             continue
-        key = tuple(sorted((a[0], a[1], a[2], v) for a, v in d.items()))
-        got[key] = res
-    exp = {tuple(sorted(k)): v for k, v in EXPECTED_ROWS.items()}
-    for k, v in sorted(exp.items(), key=str):
-        ctx.check(got.get(k) == v, "R04.1", [b.path, "row", _fmt(k)],
-                  "loop-condition row [%s] yields %s, documented: %s" % (_fmt(k), got.get(k, "<no such row>"), v), b.where(S.cond_switch),
-                  detail={"when": _fmt(k), "continue": str(v)})
-    for k, v in sorted(got.items(), key=str):
-        ctx.check(k in exp, "R04.1", [b.path, "extra-row", _fmt(k)], "undocumented loop-condition row [%s] -> %s" % (_fmt(k), v), b.where(S.cond_switch))
+        cd = {}
+        for a, v in d.items():
+            k, pol = canon_atom(a[0], a[1], a[2])
+            cd[k] = (v == pol)
+            atoms.add(k)
+        if isinstance(res, bool):
+            cres = res
+        elif isinstance(res, tuple):
+            k, pol = canon_atom(res[0], res[1], res[2])
+            atoms.add(k)
+            cres = (k, pol)
+        else:
+            cres = res
+        crow.append((cd, cres))
+    extra = sorted(atoms - {ATOM_A, ATOM_B, ATOM_C}, key=str)
+    ctx.check(not extra, "R04.1", [b.path, "undocumented-atom"] + ["%s(%s,%s)" % a for a in extra],
+              "the loop condition tests %s, which the documented rule does not mention" % extra, b.where(S.cond_switch))
+    missing = sorted({ATOM_A, ATOM_B, ATOM_C} - atoms, key=str)
+    ctx.check(not missing, "R04.1", [b.path, "missing-atom"] + ["%s(%s,%s)" % a for a in missing],
+              "the loop condition never tests %s" % missing, b.where(S.cond_switch))
+    names = {ATOM_A: "elapsed<max_time", ATOM_B: "no-samples-remaining", ATOM_C: "elapsed<min_time"}
+    allatoms = [ATOM_A, ATOM_B, ATOM_C] + extra
+    for vals in itertools.product([False, True], repeat=3):
+        asg = dict(zip([ATOM_A, ATOM_B, ATOM_C], vals))
+        outs = set()
+        # undocumented atoms must not matter: try both values
+        for evals in itertools.product([False, True], repeat=len(extra)):
+            full = dict(asg)
+            full.update(zip(extra, evals))
+            hit = [r for d, r in crow if all(full.get(k) == v for k, v in d.items())]
+            if not hit:
+                outs.add("<no path>")
+            for r in hit:
+                if isinstance(r, bool):
+                    outs.add(r)
+                elif isinstance(r, tuple):
+                    outs.add(full.get(r[0]) == r[1])
+                else:
+                    outs.add(str(r))
+        want = documented(*vals)
+        label = " & ".join(("" if v else "!") + names[k] for k, v in asg.items())
+        ctx.check(outs == {want}, "R04.1", [b.path, "row", label],
+                  "when [%s] the loop condition yields %s, documented: %s (continue <=> elapsed < max_time and (samples remain or elapsed < min_time))"
+                  % (label, sorted(outs, key=str), want), b.where(S.cond_switch), detail={"when": label, "continue": str(want)})
     # the final switch continues on true
     t = b.term(S.cond_switch)
     zero = [a[1] for a in t["arms"] if a[0] == "0"]
